@@ -423,54 +423,17 @@ Fixpoint failing_from {C} (verdict : C -> N) (i : N) (cs : list C) : list (N * N
 
 Definition c11_failing (cs : list c11_case) : list (N * N) := failing_from c11_verdict 0%N cs.
 
-(** ** C09: views agree *)
-
-(** case: the instruction sequence; observed [to_instructions], [into_instructions],
-    [body_instructions], used set; the observation of [from_instructions (to_instructions p)];
-    the [==] verdict between the two programs *)
-Definition c09_case := (list instr * (list instr * list instr * list instr * list N) * obs * bool)%type.
-
-(** instance checker: the views agree, the body is the body part of the input in order,
-    every keyed definition appears once with the last value bound to its key in the input,
-    and rebuilding gives the same listing *)
-Definition chk_views (is : list instr) (toi intoi bodyi : list instr) (rt : list instr) : bool :=
-  instrs_eqb intoi toi &&
-  instrs_eqb bodyi (body_part is) &&
-  instrs_eqb (body_part toi) bodyi &&
-  forallb (fun kd =>
-    let part := sel kd toi in
-    listN_eqb (nodup_from [] (keys part)) (keys part) &&
-    forallb (fun kv => match last_value (fst kv) (sel kd is) with
-                       | Some v => instr_eqb v (snd kv) | None => false end) part &&
-    forallb (fun kv => memN (fst kv) (keys part)) (sel kd is)) all_kinds &&
-  instrs_eqb rt toi.
-
-Definition c09_verdict (in_class : bool) (c : c09_case) : N :=
-  let '(is, (toi, intoi, bodyi, u), ort, e) := c in
-  let ok_prop := chk_views is toi intoi bodyi (fst ort) && (in_class || (seteqb (snd ort) u && e)) in
-  if negb ok_prop then 2%N
-  else
-    let p := from_instructions is in
-    let q := from_instructions (to_instructions p) in
-    if instrs_eqb (to_instructions p) toi && instrs_eqb (into_instructions p) intoi &&
-       instrs_eqb (body_instructions p) bodyi && seteqb (used p) u &&
-       obs_eqb (obs_of q) ort && Bool.eqb (prog_eqb p q) e
-    then 0%N else 1%N.
-
-(** the stale-cache class of C10 (a calibration rebound so that a qubit of the old value is not
-    mentioned by the new one) is the only way the rebuilt program differs from the original;
-    cases in it are evaluated with [in_class = true] and carry the C10 known id *)
-Definition c09_failing (cs : list (bool * c09_case)) : list (N * N) :=
-  failing_from (fun bc => c09_verdict (fst bc) (snd bc)) 0%N cs.
-
 (** ** C08: order *)
 
-Definition c08_case := (list instr * list instr)%type.
+(** case: the sequence split in two halves [is1 ++ is2] (second half empty for the plain
+    builders), and the observed listing of [from is1 + from is2] *)
+Definition c08_case := (list instr * list instr * list instr)%type.
 
 Definition c08_verdict (c : c08_case) : N :=
-  let '(is, out) := c in
-  if negb (instrs_eqb out (listing_spec is)) then 2%N
-  else if instrs_eqb (to_instructions (from_instructions is)) out then 0%N else 1%N.
+  let '(is1, is2, out) := c in
+  if negb (instrs_eqb out (listing_spec (is1 ++ is2))) then 2%N
+  else if instrs_eqb (to_instructions (add (from_instructions is1) (from_instructions is2))) out
+       then 0%N else 1%N.
 
 Definition c08_failing (cs : list c08_case) : list (N * N) := failing_from c08_verdict 0%N cs.
 
@@ -558,6 +521,48 @@ Fixpoint all_hits_from (p : program) (ops : list op) : list N :=
   end.
 
 Definition all_hits (ops : list op) : list N := all_hits_from empty ops.
+
+(** ** C09: views agree *)
+
+(** case: the instruction sequence; observed [to_instructions], [into_instructions],
+    [body_instructions], used set; the observation of [from_instructions (to_instructions p)];
+    the [==] verdict between the two programs *)
+Definition c09_case := (list instr * (list instr * list instr * list instr * list N) * obs * bool)%type.
+
+(** instance checker: the views agree, the body is the body part of the input in order,
+    every keyed definition appears once with the last value bound to its key in the input,
+    and rebuilding gives the same listing *)
+Definition chk_views (is : list instr) (toi intoi bodyi : list instr) (rt : list instr) : bool :=
+  instrs_eqb intoi toi &&
+  instrs_eqb bodyi (body_part is) &&
+  instrs_eqb (body_part toi) bodyi &&
+  forallb (fun kd =>
+    let part := sel kd toi in
+    listN_eqb (nodup_from [] (keys part)) (keys part) &&
+    forallb (fun kv => match last_value (fst kv) (sel kd is) with
+                       | Some v => instr_eqb v (snd kv) | None => false end) part &&
+    forallb (fun kv => memN (fst kv) (keys part)) (sel kd is)) all_kinds &&
+  instrs_eqb rt toi.
+
+(** the stale-cache class of C10 (a calibration rebound so that a qubit reported by the old value
+    is not reported by the new one): the only way the rebuilt program's cache differs from the
+    original's; the defect is reported once, under C10, so the "equal program" clause is not
+    evaluated on sequences in the class *)
+Definition stale_seq (is : list instr) : bool := existsb (N.eqb K_STALE) (hits_adds empty is).
+
+Definition c09_verdict (c : c09_case) : N :=
+  let '(is, (toi, intoi, bodyi, u), ort, e) := c in
+  let ok_prop := chk_views is toi intoi bodyi (fst ort) && (stale_seq is || (seteqb (snd ort) u && e)) in
+  if negb ok_prop then 2%N
+  else
+    let p := from_instructions is in
+    let q := from_instructions (to_instructions p) in
+    if instrs_eqb (to_instructions p) toi && instrs_eqb (into_instructions p) intoi &&
+       instrs_eqb (body_instructions p) bodyi && seteqb (used p) u &&
+       obs_eqb (obs_of q) ort && Bool.eqb (prog_eqb p q) e
+    then 0%N else 1%N.
+
+Definition c09_failing (cs : list c09_case) : list (N * N) := failing_from c09_verdict 0%N cs.
 
 (** case: two histories, the observations of their final states, the [==] verdict between them.
     [mode = 0]: correspondence only (model = implementation); [mode = 1]: the property on the
